@@ -25,42 +25,43 @@ def run(ctx):
         if isinstance(out, list) and out[1].startswith('Other:'):
             ctx.violation('unexpected-exception', {'attached': u.doc is not None, 'history': hist}, out, 'a DOM error or success', {'exception': out[1]})
         if out != 'Ok' or True: ctx.nt((u.doc is not None, tuple(hist)))
-    for attached in (False, True):
-        u0 = D.Universe(attached)
+    for attached, pre in ((False, False), (True, False), (False, True), (True, True)):
+        u0 = D.Universe(attached, prelinked=pre)
         ids = DC.working_ids(u0, attached)
         ops = D.all_ops(u0, ids, ids)
         small = D.all_ops(u0, ids[:-1] if not attached else ids[:4] + ids[5:6], None)   # 3 elements + 1 text (+ container)
         ctx.bump('ops-in-alphabet(%s)' % ('attached' if attached else 'free'), len(ops))
-        tag = 'attached' if attached else 'free'
+        tag = ('attached' if attached else 'free') + ('+prelinked' if pre else '')
         n = 0
         for op in ops:
-            DC.run_history(ctx, attached, [op], [structure], tag); n += 1
+            DC.run_history(ctx, attached, [op], [structure], tag, prelinked=pre); n += 1
         ctx.exhaustive.append('%s: all %d single operations over 3 elements + 2 text nodes' % (tag, n))
         n = 0
         for seq in itertools.product(small, repeat=2):
-            if ctx.quick and attached and (hash(seq) % 3): continue
-            DC.run_history(ctx, attached, list(seq), [structure], tag); n += 1
+            if ctx.quick and (attached or pre) and ((sum(map(hash, map(str, seq))) % 4)): continue
+            DC.run_history(ctx, attached, list(seq), [structure], tag, prelinked=pre); n += 1
         ctx.exhaustive.append('%s: %s%d operation sequences of length 2 over %d operations (3 elements + 1 text%s)' % (
-            tag, 'a third of the ' if ctx.quick and attached else 'all ', n, len(small), ' + container' if attached else ''))
+            tag, 'a quarter of the ' if ctx.quick and (attached or pre) else 'all ', n, len(small), ' + container' if attached else ''))
         if not ctx.quick:
             n = 0
             for seq in itertools.product(ops, repeat=2):
-                DC.run_history(ctx, attached, list(seq), [structure], tag); n += 1
+                DC.run_history(ctx, attached, list(seq), [structure], tag, prelinked=pre); n += 1
             ctx.exhaustive.append('%s: all %d sequences of length 2 over the full alphabet of %d operations' % (tag, n, len(ops)))
             tiny = [o for o in small if o[0] != 'addtext' or o[2] == 'x']
             tiny = tiny[::2] if len(tiny) > 60 else tiny
             n = 0
             for seq in itertools.product(tiny, repeat=3):
-                DC.run_history(ctx, attached, list(seq), [structure], tag); n += 1
+                DC.run_history(ctx, attached, list(seq), [structure], tag, prelinked=pre); n += 1
             ctx.exhaustive.append('%s: all %d sequences of length 3 over %d operations' % (tag, n, len(tiny)))
     # random longer histories over the whole universe
     for k in range(150 if ctx.quick else 4000):
         attached = ctx.rng.random() < 0.6
-        u0 = D.Universe(attached)
+        pre = ctx.rng.random() < 0.5
+        u0 = D.Universe(attached, prelinked=pre)
         ids = u0.free_ids + ([u0.id_of(u0.doc.text), u0.id_of(u0.doc.styles), u0.id_of(u0.doc.automaticstyles)] if attached else [])
         ops = D.all_ops(u0, ids)
         seq = [ctx.rng.choice(ops) for _ in range(ctx.rng.randint(3, 12))]
-        DC.run_history(ctx, attached, seq, [structure], 'random')
+        DC.run_history(ctx, attached, seq, [structure], 'random', prelinked=pre)
         if k < 2: ctx.sample({'attached': attached, 'history': seq})
 
 def replay(ctx, case):
